@@ -909,7 +909,8 @@ bool dispatch_api(State& st, const std::string& op, const json& a, json& ret)
         json out;
         out["statements"] = 0;
         out["stopped"] = "max_k";
-        for (long long k = 1; k <= max_k; ++k)
+        long long k_stride = a.value("k_stride", 1LL);   // > 1: only every k_stride-th statement is failed (long operations)
+        for (long long k = 1; k <= max_k; k += k_stride)
         {
             shim_begin_op();
             shim_arm_fault(k, code, false);
